@@ -320,6 +320,25 @@ def frame_points(shipped):
     return pts
 
 
+def record_points(data):
+    """Ends of the top-level pickles of a file that is a SEQUENCE of pickles (read until EOFError):
+    a cut exactly there looks like a clean end of input to such a reader."""
+    import io
+    import pickletools
+
+    pts = set()
+    bio = io.BytesIO(data)
+    try:
+        while bio.tell() < len(data):
+            for _ in pickletools.genops(bio):
+                pass
+            end = bio.tell()
+            pts.update((end - 1, end, end + 1, end + 2, end + 3))
+    except Exception:
+        pass
+    return pts
+
+
 def write_chunk_points(shipped):
     """Boundaries of the write() calls pickle.dump issues for this content."""
     try:
@@ -617,7 +636,14 @@ def explore(args, rep, base, shipped, tier, seed):
         if rebuilt_len:
             rrng = seeds.rng_for(seed, PROP, "rebuilt")
             nreb = 40 if tier == "quick" else 4000
-            ks = sorted({1, rebuilt_len - 1, rebuilt_len // 2} | {rrng.randrange(1, rebuilt_len) for _ in range(nreb)})
+            with open(rebuilt_path, "rb") as f_:
+                rebuilt = f_.read()
+            # structural cut points of the file the tree itself writes: frame boundaries, and the ends of its
+            # top-level pickles if it is a sequence of pickles
+            structural_r = {k for k in (frame_points(rebuilt) | record_points(rebuilt)) if 1 <= k < rebuilt_len}
+            if len(structural_r) > 120:
+                structural_r = set(rrng.sample(sorted(structural_r), 120))
+            ks = sorted({1, rebuilt_len - 1, rebuilt_len // 2} | structural_r | {rrng.randrange(1, rebuilt_len) for _ in range(nreb)})
             for k in ks:
                 payloads.append({"scratch": base, "state": {"kind": "prefix_of_rebuilt", "k": k}, "build_env": rrng.random() < 0.3, "rebuilt_path": rebuilt_path})
         results = farm.map("checks.c19_crash:run_state", payloads, timeout=120)
